@@ -295,6 +295,11 @@ func KitchenSink(variant int) *Schema {
 		"owner":  col(optional(ref("Root", "strong"))),
 		"marker": col(setOf(bt("string"), 0, -1)),
 	}}
+	// columns with the same name in several tables (a monitor may select them in one table and not in another)
+	for _, tn := range []string{"Root", "Child", "Grand", "Item"} {
+		s.Tables[tn].Columns["note"] = col(optional(bt("string")))
+		s.Tables[tn].Columns["rank"] = col(scalar(bt("integer")))
+	}
 	switch variant % 3 {
 	case 1:
 		// no table marked root: every table is root, nothing is collected
